@@ -206,3 +206,38 @@ def guard_bad_early_exit(fields, report):
         for name, arg in field.args.items():
             if name not in iface_args and arg.required:
                 report(name)
+
+
+def param_readonly_bad(argument_map, mapper):
+    for name, arg in argument_map.items():
+        argument_map[name] = mapper(arg)
+    return argument_map
+
+
+def param_readonly_ok(argument_map, mapper, config):
+    new_map = {}
+    for name, arg in argument_map.items():
+        new_map[name] = mapper(arg)
+    config = dict(config)
+    config["args"] = new_map
+    return new_map
+
+
+def independent_keys_bad(config, lookup):
+    mapped = dict.fromkeys(("query", "mutation", "subscription"))
+    for operation in mapped:
+        root = config[operation]
+        if root is None:
+            break
+        mapped[operation] = lookup(root.name)
+    return mapped
+
+
+def independent_keys_ok(config, lookup):
+    mapped = dict.fromkeys(("query", "mutation", "subscription"))
+    for operation in mapped:
+        root = config[operation]
+        if root is None:
+            continue
+        mapped[operation] = lookup(root.name)
+    return mapped
